@@ -370,6 +370,8 @@ class DatasetOnDisk(GetSetDelAttrMixin, NetCDFOnDisk, AbstractDataset):
 
         dimaondisk = DimArrayOnDisk(self._ds, name)
         dimaondisk[()] = dima
+        if hasattr(dima, 'attrs'):
+            dimaondisk.attrs.update(dima.attrs) # the variable's metadata
         dimaondisk.attrs.update(cf_attrs) # calendar?
 
     __setitem__ = write
@@ -481,9 +483,9 @@ class DimArrayOnDisk(GetSetDelAttrMixin, NetCDFVariable, AbstractDimArray):
 
         assert self._name in ds.variables.keys(), "variable does not exist, should have been created earlier!"
 
-        # add attributes
+        # add attributes needed to decode the values (the metadata of an assigned DimArray is not the variable's:
+        # a whole variable written via `DatasetOnDisk.write` gets its metadata there)
         if hasattr(dima,'attrs'):
-            self.attrs.update(dima.attrs)
             self.attrs.update(cf_attrs) # calendar?
 
         # special case: index == slice(None) and self.ndim == 0
